@@ -58,13 +58,48 @@ def all_specs(thorough):
                         continue
                     for paren in ((False, True) if (thorough or op == "assign") and op != "refmut" else (False,)):
                         specs.append(dict(r, path=path, pty=pty, op=op, deref=deref, paren=paren, k="chain"))
+    # containers whose *elements / fields are pointers*: replacing the element of an immutable container is a write to
+    # immutable data, whatever the element's own type allows
+    for cont in ("array", "struct"):
+        for pmut in (True, False):
+            for root in ("imm-local", "mut-local", "param"):
+                for op in ("assign", "refmut"):
+                    specs.append({"k": "container", "cont": cont, "ptr": pmut, "root": root, "op": op, "mutable": root == "mut-local"})
     # the global and a parameter of scalar type
     for op in OPS:
         specs.append({"k": "global", "op": op, "mutable": False, "root": "global", "ptr": None})
     return specs
 
 
+def make_container_cell(i, spec):
+    pm = "^mut" if spec["ptr"] else "^"
+    cont, root, op, mutable = spec["cont"], spec["root"], spec["op"], spec["mutable"]
+    cty = f"[2]{pm} S" if cont == "array" else ("HM" if spec["ptr"] else "HI")
+    lit = f".[{pm} ya{i}, {pm} ya{i}]" if cont == "array" else f"{cty}.{{ p = {pm} ya{i} }}"
+    elem = "c[1]" if cont == "array" else "c.p"
+    body = [f"ya{i} := mk();", f"yb{i} := mk();", f"yb{i}.a = 77;"]
+    stmts = []
+    if op == "assign":
+        stmts.append(f"{elem} = {pm} yb{i};")
+    else:
+        stmts.append(f"q{i} :: ^mut {elem};")
+        stmts.append(f"q{i}^ = {pm} yb{i};")
+    stmts.append(f'printf("%ld\\n", i64.({elem}.a));')
+    decls = []
+    if root == "param":
+        decls.append(f"cfn{i} :: (c: {cty}, yb{i}: {pm} S) {{\n    " + "\n    ".join(s_.replace(f"{pm} yb{i}", f"yb{i}") for s_ in stmts) + "\n}")
+        body.append(f"cfn{i}({lit}, {pm} yb{i});")
+    else:
+        body.append(f"c {':=' if root == 'mut-local' else '::'} {lit};" if cont == "struct" else f"c : {cty} {'=' if root == 'mut-local' else ':'} {lit};")
+        body += stmts
+    key = f"C14:{op}:container:{cont}:{'ptr-mut' if spec['ptr'] else 'ptr-imm'}:{root}"
+    return {"decls": decls, "body": body, "expect": "accept" if mutable else "reject", "out": "77\n" if mutable else None, "key": key,
+            "desc": f"{op} of the pointer-typed {'element' if cont == 'array' else 'field'} of a {root} {cty}", "spec": spec, "cls": f"{'mutable' if mutable else 'immutable'}.container.{op}"}
+
+
 def make_cell(i, spec):
+    if spec["k"] == "container":
+        return make_container_cell(i, spec)
     decls, body = [], []
     op = spec["op"]
     if spec["k"] == "global":
@@ -188,7 +223,7 @@ def replay_payload(payload, scratch):
 
 RULE = ("targets = root (`::` local, `:=` local, parameter, global, or a pointer of type ^S / ^mut S obtained from an annotated local, an inferred local, a parameter, a function "
         "result, a struct field, or a ^mut value stored at type ^S; bound with `::` or `:=`) + path (whole value, field, array element, nested field) + explicit or auto-deref + "
-        "optional parentheses; operations = plain assignment, compound assignment, `^mut target` followed by a write. Enumerated completely (chains up to length 3; with all "
+        "optional parentheses; plus arrays / structs whose elements / fields are pointers, held in a `::` local, a `:=` local or a parameter, whose element / field itself is replaced; operations = plain assignment, compound assignment, `^mut target` followed by a write. Enumerated completely (chains up to length 3; with all "
         "parenthesised variants in thorough). Non-trivial = chain containing a pointer step and a field/element step; distinct by cell.")
 
 
